@@ -24,6 +24,7 @@ type Mutex struct {
 	name  string
 }
 
+//go:norace
 func (m *Mutex) LockName() string {
 	if m.name == "" {
 		return fmt.Sprintf("mutex@%p", m)
@@ -57,7 +58,7 @@ func (m *Mutex) Lock() {
 	}
 	t.waitLock = nil
 	m.owner = t
-	t.locks = append(t.locks, m)
+	t.locks = Push[any](t.locks, m)
 	m.real.Lock()
 }
 
@@ -76,7 +77,7 @@ func (m *Mutex) TryLock() bool {
 		return false
 	}
 	m.owner = t
-	t.locks = append(t.locks, m)
+	t.locks = Push[any](t.locks, m)
 	m.real.Lock()
 	return true
 }
@@ -109,7 +110,7 @@ func (m *Mutex) Unlock() {
 func dropLock(t *Task, l any) {
 	for i := len(t.locks) - 1; i >= 0; i-- {
 		if t.locks[i] == l {
-			t.locks = append(t.locks[:i], t.locks[i+1:]...)
+			t.locks = RemoveAt(t.locks, i)
 			return
 		}
 	}
@@ -135,6 +136,7 @@ type RWMutex struct {
 	name     string
 }
 
+//go:norace
 func (m *RWMutex) LockName() string {
 	if m.name == "" {
 		return fmt.Sprintf("rwmutex@%p", m)
@@ -183,7 +185,7 @@ func (m *RWMutex) Lock() {
 	m.wwaiting--
 	t.waitLock = nil
 	m.writer = t
-	t.locks = append(t.locks, m)
+	t.locks = Push[any](t.locks, m)
 	m.real.Lock()
 }
 
@@ -239,8 +241,8 @@ func (m *RWMutex) RLock() {
 		k.park(t)
 	}
 	t.waitLock = nil
-	m.readers = append(m.readers, t)
-	t.locks = append(t.locks, m)
+	m.readers = Push(m.readers, t)
+	t.locks = Push[any](t.locks, m)
 	m.real.RLock()
 }
 
@@ -269,7 +271,7 @@ func (m *RWMutex) RUnlock() {
 		idx = 0
 	}
 	r := m.readers[idx]
-	m.readers = append(m.readers[:idx], m.readers[idx+1:]...)
+	m.readers = RemoveAt(m.readers, idx)
 	dropLock(r, m)
 	m.real.RUnlock()
 	if len(m.readers) == 0 {
@@ -292,7 +294,7 @@ func (m *RWMutex) TryLock() bool {
 		return false
 	}
 	m.writer = t
-	t.locks = append(t.locks, m)
+	t.locks = Push[any](t.locks, m)
 	m.real.Lock()
 	return true
 }
@@ -308,17 +310,21 @@ func (m *RWMutex) TryRLock() bool {
 	if m.writer != nil || m.wwaiting > 0 {
 		return false
 	}
-	m.readers = append(m.readers, t)
-	t.locks = append(t.locks, m)
+	m.readers = Push(m.readers, t)
+	t.locks = Push[any](t.locks, m)
 	m.real.RLock()
 	return true
 }
 
 type rlocker RWMutex
 
-func (r *rlocker) Lock()   { (*RWMutex)(r).RLock() }
+//go:norace
+func (r *rlocker) Lock() { (*RWMutex)(r).RLock() }
+
+//go:norace
 func (r *rlocker) Unlock() { (*RWMutex)(r).RUnlock() }
 
+//go:norace
 func (m *RWMutex) RLocker() Locker { return (*rlocker)(m) }
 
 // OwnerInfo describes who holds the lock (diagnostics).
@@ -386,6 +392,7 @@ type Cond struct {
 	waiters []*Task
 }
 
+//go:norace
 func NewCond(l Locker) *Cond { return &Cond{L: l, real: sync.NewCond(l)} }
 
 //go:norace
@@ -403,7 +410,7 @@ func (c *Cond) Wait() {
 		return
 	}
 	t.signaled = false
-	c.waiters = append(c.waiters, t)
+	c.waiters = Push(c.waiters, t)
 	c.L.Unlock()
 	for !t.signaled {
 		t.setState(BlockedCond)
@@ -428,7 +435,7 @@ func (c *Cond) Signal() {
 	}
 	if len(c.waiters) > 0 {
 		w := c.waiters[0]
-		c.waiters = c.waiters[1:]
+		c.waiters = RemoveAt(c.waiters, 0)
 		w.signaled = true
 		if w.State() == BlockedCond {
 			w.setState(Parked)
